@@ -340,15 +340,18 @@ pub fn walk(k: Kind, img: &[u8]) -> Walk {
                     let ty = rest[0] as u32;
                     let len = r16(rest, 2).unwrap() as usize;
                     let n = r16(rest, 26).unwrap() as usize;
-                    // nested resources: u8 type, u8 rsvd, u16 length (>= 20)
+                    // nested resources: u8 type, u8 rsvd, u16 length (at least the 8-byte fixed part)
                     let mut o = 28;
                     for i in 0..n {
                         if rest.len() < o + 4 {
                             return Err(format!("controller resource {} truncated", i));
                         }
                         let rl = r16(rest, o + 2).unwrap() as usize;
-                        if rl < 20 {
-                            return Err(format!("controller resource {} shorter than 20 bytes", i));
+                        if rl < 8 {
+                            return Err(format!("controller resource {} shorter than its fixed part", i));
+                        }
+                        if rest.len() < o + rl {
+                            return Err(format!("controller resource {} runs past the controller", i));
                         }
                         o += rl;
                     }
